@@ -137,8 +137,27 @@ func (e *Executor) traverse(rt RequestTask) error {
 			// tell the loader we're online now
 			rt.ReconciledLoader.SetRemoteOnline(true)
 
+			// the request may have been cancelled while it was starting up: its cancellation takes the
+			// loader offline, and going online afterwards would leave this load waiting for a remote
+			// that is never asked (and would send the request after its own cancel)
+			select {
+			case <-rt.Ctx.Done():
+				rt.ReconciledLoader.SetRemoteOnline(false)
+				return ipldutil.ContextCancelError{}
+			default:
+			}
+
 			if err := e.startRemoteRequest(rt); err != nil {
 				return err
+			}
+			// a cancellation that raced with the request being sent has put its cancel message in
+			// front of the request: cancel once more, behind it
+			select {
+			case <-rt.Ctx.Done():
+				e.manager.SendRequest(rt.P, gsmsg.NewCancelRequest(rt.Request.ID()))
+				rt.ReconciledLoader.SetRemoteOnline(false)
+				return ipldutil.ContextCancelError{}
+			default:
 			}
 			// retry the load
 			result = rt.ReconciledLoader.RetryLastLoad()
